@@ -234,16 +234,18 @@ func (c *ctl) await(watch []*actor, watchdog time.Duration) waitResult {
 func (c *ctl) release(a *actor) { a.resume <- struct{}{} }
 
 // intoWait lets a requester parked at a wait:* hook (mutex held) continue into cond.Wait()
-// and returns once the mutex is observed free, i.e. the goroutine is on the notify list.
+// and returns once the runtime reports the goroutine parked in sync.Cond.Wait: it is then on
+// the notify list (notifyListAdd precedes the park) and has released the mutex.
 func (c *ctl) intoWait(a *actor) error {
 	c.release(a)
 	deadline := time.Now().Add(10 * time.Second)
-	for !gohlslib.VerifMutexFree(c.m) {
+	for {
 		runtime.Gosched()
+		if gstates()[a.gid] == "sync.Cond.Wait" {
+			return nil
+		}
 		if time.Now().After(deadline) {
-			return fmt.Errorf("mutex not released after wait hook")
+			return fmt.Errorf("requester %d did not reach cond.Wait after its wait hook", a.id)
 		}
 	}
-	// the goroutine is inside cond.Wait(): notifyListAdd precedes the Unlock we just observed
-	return nil
 }
